@@ -1,9 +1,16 @@
 """C14 — signals.  Spec: spec/Signals.tla (+SignalsOps); trace spec: spec/SignalsTrace.tla.
 
 Operation alphabet of the driver (= of the model, see Signals.tla):
-  connect s n h ws uk us      callback h, weak arguments ws (0..2 ids), user arguments us handed over as
-                              uk = "t" tuple, "f" fresh list, "g" one-shot iterator, "c" THE CALLER'S OWN LIST (whatever it holds now)
-  disconnect s n h ws uk us   by arguments: names the descriptor (h, ws, us); any descriptor, connected or not
+  connect s n h ws uk us [victim r cf ua]
+                              callback (h, r): the plain function h (r = 0) or the bound method h of receiver object r, handed over as
+                              cf = "s" the callback object the caller keeps / "n" `receiver.h` evaluated afresh (a new, equal object);
+                              weak arguments ws (0..2 ids), user arguments us handed over as
+                              uk = "t" tuple, "f" fresh list, "g" one-shot iterator, "c" THE CALLER'S OWN LIST (whatever it holds now);
+                              ua = the deprecated positional user_arg: 0 = None / not given, else an id of UA_MAKE (false and true values)
+  disconnect s n h ws uk us [r cf ua]
+                              by arguments: names the descriptor (h, r, ua, ws, us); any descriptor, connected or not
+  construct s h r cf ua       the application replaces the sender in slot s by a new one that is born with a callback: a widget built with
+                              Button(on_press=cb, user_data=ua) / CheckBox(on_state_change=cb, user_data=ua) in a world of widgets
   disconnect_by_key s n k     any key the caller still holds, also keys of senders that are gone
   mutate us                   the caller changes its own list (after having connected with it)
   collect w                   the application drops weak argument w (observed: dead there and then)
@@ -17,9 +24,36 @@ import concurrent.futures as cf
 import gc
 import itertools
 import json
+import warnings
 import weakref
 
 from .. import tlc
+
+# values of the deprecated user_arg (id 0 = None = not given); ids 1..6 are FALSE values that are not None.  Within one history at
+# most one of the ids 1, 3, 6 is used (0 == False == 0.0 in Python: whether they name each other's connections is left open).
+UA_MAKE = {1: lambda: 0, 2: lambda: "", 3: lambda: False, 4: lambda: (), 5: lambda: [], 6: lambda: 0.0,
+           7: lambda: 7, 8: lambda: "x", 9: lambda: True, 10: lambda: [0], 11: lambda: (0,)}
+UA_FALSY = (1, 2, 3, 4, 5, 6)
+UA_ZEROS = (1, 3, 6)
+UA_TRUTHY = (7, 8, 9, 10, 11)
+
+
+def _ua_id(obj):
+    for i, mk in UA_MAKE.items():
+        v = mk()
+        if type(v) is type(obj) and v == obj:
+            return i
+    return 0
+
+
+def ua_pool(rng):
+    """user_arg values of one history: None, one zero-like value, two other false values, two true values."""
+    return [0, rng.choice(UA_ZEROS)] + rng.sample([2, 4, 5], 2) + rng.sample(list(UA_TRUTHY), 2)
+
+
+def _same_arg(a, b):
+    return a is b or (type(a) is type(b) and isinstance(a, int) and a == b)
+
 
 BEHS = ["plain", "true", "discSelf", "discEarlier", "discLater", "connectNew", "emitAgain", "killWeak"]
 NAMES = {1: "n1", 2: "n2", 3: "n3"}  # n3 is not registered
@@ -42,11 +76,14 @@ class World:
     """Real urwid senders / handlers / weak arguments driven by an abstract script; every
     observable step is appended to self.ev."""
 
-    def __init__(self, beh, nh, nweak=1, nn=2):
+    NRECV = 2
+
+    def __init__(self, beh, nh, nweak=1, nn=2, kind="plain"):
         import urwid
         from urwid.signals import MetaSignals
 
         self.urwid = urwid
+        self.kind = kind
 
         class SenderA(metaclass=MetaSignals):
             signals = ["n1", "n2"]
@@ -60,7 +97,20 @@ class World:
         class SenderB(_Mid):
             pass
 
-        self.senders = {1: SenderA(), 2: SenderB()}
+        class ButtonB(urwid.Button):            # a Button with a second signal of its own
+            signals = ["click", "aux"]
+
+        if kind == "widgets":
+            # senders are real widgets; callbacks given to their constructors are connected with the deprecated user_arg
+            self.names = {1: {1: "click", 2: "aux", 3: "n3"}, 2: {1: "change", 2: "postchange", 3: "n3"}}
+            # (slot 2: a CheckBox, the next one a RadioButton, and so on in turn)
+            self.factory = {1: lambda cb=None, ua=None, gen=0: ButtonB("b", cb, ua),
+                            2: lambda cb=None, ua=None, gen=0: (urwid.RadioButton([], "r", False, cb, ua) if gen % 2 else
+                                                               urwid.CheckBox("c", False, False, cb, ua))}
+        else:
+            self.names = {1: NAMES, 2: NAMES}
+            self.factory = {1: lambda cb=None, ua=None, gen=0: SenderA(), 2: lambda cb=None, ua=None, gen=0: SenderB()}
+        self.senders = {1: self.factory[1](), 2: self.factory[2]()}
         self.sgen = {1: 0, 2: 0}   # generation of the sender in each slot (drop_sender puts a fresh one there)
         self.weak = {w: _WeakArg(w) for w in range(1, nweak + 1)}
         self.nweak = nweak
@@ -74,10 +124,26 @@ class World:
         self.kinfo = {}   # k -> (slot, generation) of the sender it was handed out for
         self.inuse = {}   # weak argument id -> number of running handler calls that received it
         self.clist = [1]  # the caller's own list, passed as user_args again and again and changed in between
-        self.shadow = {(s, n): [] for s in (1, 2) for n in (1, 2)}  # harness belief: list of (k, h, ws, us)
+        self.shadow = {(s, n): [] for s in (1, 2) for n in (1, 2)}  # harness belief: list of (k, h, ws, us, r, ua)
         self.depth = 0
         self.stack_sn = []
         self.handlers = {h: self._mk_handler(h) for h in range(1, nh + 1)}
+        # receiver objects: their methods m1..m<nh> are callbacks too (method h behaves as function h does)
+        world = self
+
+        class Receiver:
+            def __init__(self, r):
+                self.r = r
+
+        def mk_method(h):
+            def method(self, *args):
+                return world._called(h, args, self.r)
+            method.__name__ = f"m{h}"
+            return method
+        for h in range(1, nh + 1):
+            setattr(Receiver, f"m{h}", mk_method(h))
+        self.recv = {r: Receiver(r) for r in range(1, self.NRECV + 1)}
+        self.kept = {}    # (h, r) -> the bound method object the caller keeps
 
     def _mk_handler(self, h):
         world = self
@@ -99,9 +165,21 @@ class World:
             return iter(list(us)), us
         return list(us), us
 
+    def _callback(self, h, r, cf):
+        """The callback object handed to urwid: function h, or method h of receiver r (kept object / fetched afresh)."""
+        if not r:
+            return self.handlers[h]
+        if cf == "s":
+            if (h, r) not in self.kept:
+                self.kept[(h, r)] = getattr(self.recv[r], f"m{h}")
+            return self.kept[(h, r)]
+        return getattr(self.recv[r], f"m{h}")
+
     # ---- abstract operations ---------------------------------------------------------------
-    def connect(self, s, n, h, ws=(), uk="t", us=None, victim=0):
+    def connect(self, s, n, h, ws=(), uk="t", us=None, victim=0, r=0, cf="s", ua=0):
         k = self.nextk
+        if not r:
+            cf = "s"
         ws = [int(w) for w in ws]
         if us is None:
             us = [k]
@@ -121,50 +199,58 @@ class World:
                     return iter(items)
             wa = _Dying()
         uobj, us = self._uargs(uk, us)
+        cb = self._callback(h, r, cf)
+        pos = (UA_MAKE[ua](),) if ua else ((None,) if k % 2 else ())   # user_arg=None is "not given"
         try:
-            key = self.urwid.connect_signal(self.senders[s], NAMES[n], self.handlers[h], weak_args=wa, user_args=uobj)
+            key = self.urwid.connect_signal(self.senders[s], self.names[s][n], cb, *pos, weak_args=wa, user_args=uobj)
             self.keys[k] = key
             self.kinfo[k] = (s, self.sgen[s])
-            self.shadow[(s, n)].append((k, h, tuple(ws), tuple(us)))
+            self.shadow[(s, n)].append((k, h, tuple(ws), tuple(us), r, ua))
             self.nextk += 1
             del key
         except Exception as ex:  # noqa: BLE001
             exc = type(ex).__name__
-        del uobj, wa
-        self.ev.append({"t": "connect", "s": s, "n": n, "h": h, "ws": ws, "us": us, "ut": uk, "k": k, "exc": exc})
+        del uobj, wa, cb, pos
+        self.ev.append({"t": "connect", "s": s, "n": n, "h": h, "r": r, "cf": cf, "ua": ua, "ws": ws, "us": us, "ut": uk, "k": k,
+                        "exc": exc, "via": "c"})
         return k
 
     def connect_kill(self, s, n, h, ws, victim):
         return self.connect(s, n, h, ws, "f", None, victim)
 
-    def disconnect(self, s, n, h, ws=(), uk="t", us=()):
+    def disconnect(self, s, n, h, ws=(), uk="t", us=(), r=0, cf="s", ua=0):
         exc = ""
+        if not r:
+            cf = "s"
         ws = [int(w) for w in ws]
         if any(w not in self.weak for w in ws):
             # cannot name a dead weak argument any more; the handler is gone anyway
             return
         wa = [self.weak[w] for w in ws]
         uobj, us = self._uargs(uk, us)
+        cb = self._callback(h, r, cf)
+        pos = (UA_MAKE[ua](),) if ua else ()
         try:
-            self.urwid.disconnect_signal(self.senders[s], NAMES[n], self.handlers[h], weak_args=wa, user_args=uobj)
+            self.urwid.disconnect_signal(self.senders[s], self.names[s][n], cb, *pos, weak_args=wa, user_args=uobj)
         except Exception as ex:  # noqa: BLE001
             exc = type(ex).__name__
-        del uobj, wa
+        del uobj, wa, cb, pos
         exact = 0
         if n in (1, 2):   # belief only: the first connection made with these arguments goes
-            d = (h, tuple(ws), tuple(us))
+            d = (h, tuple(ws), tuple(us), r, ua)
             hit = next((e for e in self.shadow[(s, n)] if e[1:] == d), None)
             if hit is not None:
                 exact = 1
                 self.shadow[(s, n)].remove(hit)
-        self.ev.append({"t": "disconnect", "s": s, "n": n, "h": h, "ws": ws, "us": us, "ut": uk, "exc": exc, "exact": exact})
+        self.ev.append({"t": "disconnect", "s": s, "n": n, "h": h, "r": r, "cf": cf, "ua": ua, "ws": ws, "us": us, "ut": uk, "exc": exc,
+                        "exact": exact})
 
     def disconnect_by_key(self, s, n, k):
         exc = ""
         if k not in self.keys:
             return
         try:
-            self.urwid.disconnect_signal_by_key(self.senders[s], NAMES[n], self.keys[k])
+            self.urwid.disconnect_signal_by_key(self.senders[s], self.names[s][n], self.keys[k])
         except Exception as ex:  # noqa: BLE001
             exc = type(ex).__name__
         if n in (1, 2):
@@ -193,7 +279,15 @@ class World:
         del self.weak[w]
         e["dead"] = ref() is None      # by reference counting alone: the machinery holds weak references only
 
-    def drop_sender(self, s, keep=1):
+    def construct(self, s, h, r=0, cf="s", ua=0):
+        """The application replaces the sender in slot s by a new one that is born with a callback: in a world of widgets
+        Button(label, on_press=cb, user_data=ua) / CheckBox(label, on_state_change=cb, user_data=ua) ("shorthand for
+        connect_signal(widget, 'click' / 'change', cb, user_data)", no key is returned); elsewhere a new sender and a connect."""
+        if self.depth:
+            return
+        self.drop_sender(s, 1, make=(h, r, cf if r else "s", ua))
+
+    def drop_sender(self, s, keep=1, make=None):
         """The application lets go of the sender in slot s; it keeps (or forgets) the keys connect_signal() returned for it."""
         if self.depth:
             return
@@ -205,32 +299,65 @@ class World:
         nconn = sum(len(self.shadow[(s, n)]) for n in (1, 2))
         for n in (1, 2):
             self.shadow[(s, n)] = []
+        own = self.own_cycles((s,))
         snd = self.senders[s]
         ref = weakref.ref(snd)
-        self.senders[s] = type(snd)()
+        if make and self.kind == "widgets":
+            h, r, cf, ua = make
+            self.senders[s] = self.factory[s](self._callback(h, r, cf), UA_MAKE[ua]() if ua else None, gen + 1)
+        else:
+            self.senders[s] = self.factory[s](None, None, gen + 1)
         self.sgen[s] = gen + 1
         del snd
         dead_rc = ref() is None
         if not dead_rc:
             gc.collect()
         self.ev.append({"t": "drop_sender", "s": s, "kept": len(mine) if keep else 0, "nconn": nconn,
-                        "dead_rc": dead_rc, "dead_gc": ref() is None})
+                        "dead_rc": dead_rc, "dead_gc": ref() is None, "own_cycles": own})
+        if make and self.kind == "widgets":
+            k = self.nextk                      # the constructor connected the callback; nobody holds a key for it
+            self.nextk += 1
+            self.kinfo[k] = (s, self.sgen[s])
+            self.shadow[(s, 1)].append((k, h, (), (), r, ua))
+            self.ev.append({"t": "connect", "s": s, "n": 1, "h": h, "r": r, "cf": cf, "ua": ua, "ws": [], "us": [], "ut": "t", "k": k,
+                            "exc": "", "via": "w"})
+        elif make:
+            self.connect(s, 1, make[0], (), "t", [], 0, make[1], make[2], make[3])
 
     def emit(self, s, n):
         eid = self.nextemit
         self.nextemit += 1
-        self.ev.append({"t": "emit_begin", "s": s, "n": n, "id": eid})
+        snd = self.senders[s]
+        # in a world of widgets the user makes the widget emit where that amounts to exactly one emit (the return value of
+        # emit_signal() is not seen then): Button "click" by pressing enter, CheckBox "change" by toggling it while nothing
+        # listens to "postchange" (set_state() emits that one too)
+        act = self.kind == "widgets" and n == 1 and eid % 3 != 0 and (s == 1 or not self.shadow[(2, 2)])
+        if not act:
+            emobjs, em = (2000 + eid,), [2000 + eid]
+        elif s == 1:
+            emobjs, em = (snd,), [4000 + s]
+        else:
+            new = not snd.state
+            emobjs, em = (snd, new), [4000 + s, 5000 + int(new)]
+        self.ev.append({"t": "emit_begin", "s": s, "n": n, "id": eid, "em": em, "via": "w" if act else "e"})
         self.depth += 1
-        self.stack_sn.append((s, n, eid, set()))
+        self.stack_sn.append((s, n, eid, set(), emobjs, em))
         exc = ""
         ret = False
         try:
-            ret = self.urwid.emit_signal(self.senders[s], NAMES[n], 2000 + eid)
+            if not act:
+                ret = self.urwid.emit_signal(snd, self.names[s][n], 2000 + eid)
+            elif s == 1:
+                snd.keypress((10,), "enter")
+            else:
+                snd.set_state(new)
         except Exception as ex:  # noqa: BLE001
             exc = type(ex).__name__
+        del snd, emobjs
         self.stack_sn.pop()
         self.depth -= 1
-        self.ev.append({"t": "emit_end", "id": eid, "ret": bool(ret), "ret_is_bool": isinstance(ret, bool), "exc": exc})
+        self.ev.append({"t": "emit_end", "id": eid, "ret": bool(ret), "ret_is_bool": isinstance(ret, bool), "exc": exc,
+                        "obs": 0 if act else 1})
 
     # ---- handler side ----------------------------------------------------------------------
     def _abs_arg(self, a):
@@ -240,12 +367,23 @@ class World:
             return a
         return -1
 
-    def _called(self, h, args):
-        s, n, eid, seen = self.stack_sn[-1] if self.stack_sn else (0, 0, 0, set())
-        aa = [self._abs_arg(a) for a in args]
+    def _abs_args(self, args, emobjs, em):
+        """The arguments a callback received, exactly: what stands before the emitted arguments (weak and user arguments), the
+        emitted arguments, what follows them (3000 + id of a user_arg value; -1 = something else)."""
+        ne = len(emobjs)
+        at = next((i for i in range(len(args) - ne + 1) if all(_same_arg(args[i + j], emobjs[j]) for j in range(ne))), None) if ne else None
+        if at is None:
+            return [self._abs_arg(a) for a in args]
+        tail = [_ua_id(a) for a in args[at + ne:]]
+        return [self._abs_arg(a) for a in args[:at]] + list(em) + [3000 + u if u else -1 for u in tail]
+
+    def _called(self, h, args, r=0):
+        s, n, eid, seen, emobjs, em = self.stack_sn[-1] if self.stack_sn else (0, 0, 0, set(), (), [])
+        aa = self._abs_args(args, emobjs, em)
         # harness belief (used to pick the targets of the handler's behaviour only): which connection is this?  The first one
         # made with these arguments that this emit has not called yet.
-        d = (h, tuple(a - 1000 for a in aa if 1000 < a < 2000), tuple(a for a in aa if 0 <= a < 1000))
+        d = (h, tuple(a - 1000 for a in aa if 1000 < a < 2000), tuple(a for a in aa if 0 <= a < 1000), r,
+             next((a - 3000 for a in aa if 3000 < a < 4000), 0))
         k = 0
         if s:
             cands = [e[0] for e in self.shadow[(s, n)] if e[1:] == d]
@@ -253,7 +391,7 @@ class World:
             seen.add(k)
         b = self.beh[h - 1]
         ret = b == "true"
-        self.ev.append({"t": "call", "k": k, "h": h, "args": aa, "emit": eid, "ret": ret})
+        self.ev.append({"t": "call", "k": k, "h": h, "r": r, "args": aa, "emit": eid, "ret": ret})
         if s == 0:
             return ret
         held = [a.w for a in args if isinstance(a, _WeakArg)]
@@ -268,17 +406,19 @@ class World:
     def _behave(self, b, s, n, k, ret):
         live = self.shadow[(s, n)]
         pos = next((i for i, e in enumerate(live) if e[0] == k), None)
-        if b == "discSelf":
-            self.disconnect_by_key(s, n, k)
-        elif b == "discEarlier" and pos is not None and pos > 0:
-            self.disconnect_by_key(s, n, live[pos - 1][0])
-        elif b == "discLater" and pos is not None and pos + 1 < len(live):
-            e = live[pos + 1]
-            # alternate between by-key and by-arguments disconnection (by arguments only when they name that connection alone)
-            if e[0] % 2 or e[0] not in self.keys or sum(1 for x in live if x[1:] == e[1:]) > 1:
+
+        def disc(e, by_args):
+            # by key, or by arguments (only when they name that connection alone; a bound method is then fetched afresh or not in turn)
+            if sum(1 for x in live if x[1:] == e[1:]) > 1 or not (by_args or e[0] not in self.keys):
                 self.disconnect_by_key(s, n, e[0])
             else:
-                self.disconnect(s, n, e[1], e[2], "tf"[e[0] % 4 // 2], e[3])
+                self.disconnect(s, n, e[1], e[2], "tf"[e[0] % 4 // 2], e[3], e[4], "ns"[e[0] % 8 // 4], e[5])
+        if b == "discSelf" and pos is not None:
+            disc(live[pos], False)
+        elif b == "discEarlier" and pos is not None and pos > 0:
+            disc(live[pos - 1], False)
+        elif b == "discLater" and pos is not None and pos + 1 < len(live):
+            disc(live[pos + 1], live[pos + 1][0] % 2 == 0)
         elif b == "connectNew" and len(live) < self.maxconn:
             self.connect(s, n, self.nh, (), "t", [1])
         elif b == "emitAgain" and self.depth < 2:
@@ -294,33 +434,52 @@ class World:
         srefs = [weakref.ref(s) for s in self.senders.values()]
         wrefs = [weakref.ref(w) for w in self.weak.values()]
         ev = self.ev
+        own = self.own_cycles()
         # break the harness' own references
         self.senders.clear()
         self.weak.clear()
         self.handlers.clear()
+        self.recv.clear()
+        self.kept.clear()
         self.keys.clear()
         self.shadow.clear()
         rc = all(r() is None for r in srefs)
         gc.collect()
         ev.append({"t": "drop", "senders_dead_rc": rc, "senders_dead": all(r() is None for r in srefs),
-                   "weak_dead": all(r() is None for r in wrefs)})
+                   "weak_dead": all(r() is None for r in wrefs), "own_cycles": own})
         return ev
 
+    _own_cycles = {}
 
-def run_script(beh, nh, script, nweak=1, maxconn=3, nn=2):
+    def own_cycles(self, slots=(1, 2)):
+        """1 if a sender like the one in these slots, freshly built and never connected to anything, is not freed by reference
+        counting alone (a RadioButton and its group list refer to each other): then only the cycle collector can free it, whatever
+        the signal machinery does."""
+        cyc = 0
+        for s in slots:
+            key = (self.kind, s, self.sgen[s] % 2)
+            if key not in World._own_cycles:
+                ref = weakref.ref(self.factory[s](None, None, self.sgen[s]))
+                World._own_cycles[key] = int(ref() is not None)
+                gc.collect()
+            cyc |= World._own_cycles[key]
+        return cyc
+
+
+def run_script(beh, nh, script, nweak=1, maxconn=3, nn=2, kind="plain"):
     gc.freeze()  # everything allocated so far is out of the collector's way: drop()'s gc.collect() stays cheap
-    w = World(beh, nh, nweak, nn)
+    w = World(beh, nh, nweak, nn, kind)
     w.maxconn = maxconn
     for op in script:
         getattr(w, op[0])(*op[1:])
     ev = w.drop()
     del w
-    return {"nweak": nweak, "beh": beh, "script": [list(o) for o in script], "ev": ev}
+    return {"nweak": nweak, "beh": beh, "kind": kind, "script": [list(o) for o in script], "ev": ev}
 
 
-def script_from_behaviour(b):
+def script_from_behaviour(b, pool=(0, 1, 2, 7)):
     """Top-level operations of a Signals.tla behaviour (the emit's inner steps are the code's job); the model's calls per
-    finished emit as descriptors (h, ws, us)."""
+    finished emit as descriptors (h, ws, us, r, ua).  pool[i] = the user_arg value that stands for the model's value i."""
     script = []
     calls = []  # model's call order per finished emit
     desc = {}
@@ -329,11 +488,11 @@ def script_from_behaviour(b):
         a = la["a"]
         op = la["op"]
         if op == "connect":
-            script.append(("connect", a[0], a[1], a[2], list(a[3]), a[4], list(a[5])))
+            script.append(("connect", a[0], a[1], a[2], list(a[3]), a[4], list(a[5]), 0, a[7], a[8], pool[a[9]]))
         elif op == "connect_unregistered":
             script.append(("connect", a[0], a[1], a[2], [], "t", [1]))
         elif op == "disconnect":
-            script.append(("disconnect", a[0], a[1], a[2], list(a[3]), a[4], list(a[5])))
+            script.append(("disconnect", a[0], a[1], a[2], list(a[3]), a[4], list(a[5]), a[7], a[8], pool[a[9]]))
         elif op == "disconnect_by_key":
             script.append(("disconnect_by_key", a[0], a[1], a[2]))
         elif op == "mutate":
@@ -348,7 +507,7 @@ def script_from_behaviour(b):
         elif op == "emit":
             script.append(("emit", a[0], a[1]))
         elif op == "call":
-            desc[a[0]] = [a[1], list(a[2]), list(a[3])]
+            desc[a[0]] = [a[1], list(a[2]), list(a[3]), a[4], pool[a[5][0]] if a[5] else 0]
         elif op == "emit_end":
             calls.append([desc[k] for k in a[2]])
     beh = [x if x != "unset" else "plain" for x in b[-1]["beh"]]
@@ -356,16 +515,21 @@ def script_from_behaviour(b):
 
 
 WSQ = [(), (1,), (2,), (1, 2), (2, 1)]
+# how a callback is handed over: (receiver, fetch): a plain function; a method of receiver 1 / 2 as the object the caller keeps or fetched afresh
+FORMS = [(0, "s"), (1, "s"), (1, "n"), (2, "s"), (2, "n")]
 
 
-def directed_scripts():
+def directed_scripts(quick=True):
     """Every ordered triple of handler behaviours on one signal, with a handler on the sender's other signal (so that a
     recursive emit finds one), the weak argument on each position in turn, emitted twice; and duplicate connections
     (same callback, same arguments) with one or two disconnects by arguments / by key before and during an emit."""
     out = []
 
-    def C(s, n, h, ws=(), uk="t", us=None):
-        return ("connect", s, n, h, list(ws), uk, us)
+    def C(s, n, h, ws=(), uk="t", us=None, r=0, cf="s", ua=0):
+        return ("connect", s, n, h, list(ws), uk, us, 0, r, cf, ua)
+
+    def D(s, n, h, ws=(), uk="t", us=(), r=0, cf="s", ua=0):
+        return ("disconnect", s, n, h, list(ws), uk, list(us), r, cf, ua)
 
     for b1 in BEHS:
         for b2 in BEHS:
@@ -431,6 +595,39 @@ def directed_scripts():
                             script += [("drop_sender", 1, keep), C(1, 1, 2, (), "t", [9]), ("disconnect_by_key", 1, 1, 1), ("emit", 1, 1),
                                        ("drop_sender", 1, 1 - keep), ("collect", 1), ("emit", 2, 1), ("drop_sender", 2, keep), ("emit", 2, 1)]
                             out.append(("sender_dropped", [b, "plain"], 2, script))
+    # ---- what a callback IS: a function, or a method of an object; the object standing for it is kept or fetched afresh ---------
+    # connections A and B of function / method 1 (of the same or of different receivers: duplicates, or two callbacks), and one of
+    # method 2 of A's receiver; disconnects naming callback d (A, B, both or neither), twice; then the other method
+    for (ra, ca) in FORMS:
+        for (rb, cb) in FORMS:
+            for (rd, cd) in FORMS:
+                for b in (("plain", "true") if ra == rb or not quick else ("true",) if ra < rb else ("plain",)):
+                    script = [C(1, 1, 1, (), "t", [5], ra, ca), C(1, 1, 1, (), "f", [5], rb, cb), C(1, 1, 2, (), "t", [5], ra, ca), ("emit", 1, 1),
+                              D(1, 1, 1, (), "t", [5], rd, cd), ("emit", 1, 1), D(1, 1, 1, (), "f", [5], rd, cd), ("emit", 1, 1),
+                              D(1, 1, 2, (), "t", [5], ra, "n" if ra else "s"), D(1, 1, 1, (), "t", [5], ra, "n" if ra else "s"), ("emit", 1, 1),
+                              ("drop_sender", 1, 1), ("emit", 1, 1)]
+                    out.append(("callback_kinds", [b, "plain"], 2, script))
+    # ---- the deprecated user_arg: None, false values, true values; alone, after user arguments, after weak arguments ------------
+    shapes = [((), []), ((), [5]), ((1,), []), ((1,), [5])]      # (weak arguments, user arguments) that come before it
+    for ua in range(0, len(UA_MAKE) + 1):
+        for ua2 in (0, 4, 8):
+            for ws, us in (shapes if not (ua2 and quick) else shapes[ua % 2::2]):
+                for (r, cf) in ((0, "s"), (1, "n")):
+                    script = [C(1, 1, 1, ws, "t", us, r, cf, ua), C(1, 1, 2, (), "t", us, r, cf, ua2), C(1, 1, 1, ws, "f", us, r, cf, ua2), ("emit", 1, 1),
+                              D(1, 1, 1, ws, "t", us, r, cf, ua2), ("emit", 1, 1), D(1, 1, 1, ws, "t", us, r, cf, ua), ("emit", 1, 1),
+                              D(1, 1, 1, ws, "f", us, r, cf, ua), D(1, 1, 2, (), "t", us, r, cf, 0), ("emit", 1, 1), ("collect", 1), ("emit", 1, 1)]
+                    out.append(("user_arg_values", ["plain", "true"], 2, script))
+    # ---- widgets born with a callback: Button(on_press=, user_data=), CheckBox(on_state_change=, user_data=) ---------------------
+    for slot in (1, 2):
+        for ua in range(0, len(UA_MAKE) + 1):
+            for (r, cf) in FORMS[:3]:
+                for b in (("plain", "true", "discSelf", "discLater", "connectNew", "emitAgain") if not quick else ("plain", "discSelf") if r else ("true", "discSelf")):
+                    ua2 = 8 if ua != 8 else 7
+                    script = [("construct", slot, 1, r, cf, ua), ("emit", slot, 1), C(slot, 1, 2, (), "t", [], 0, "s", ua2), ("emit", slot, 1),
+                              ("emit", slot, 1), D(slot, 1, 1, (), "t", (), r, "n" if r else "s", ua2), ("emit", slot, 1),
+                              D(slot, 1, 1, (), "t", (), r, "n" if r else "s", ua), ("emit", slot, 1), ("emit", slot, 1),
+                              ("construct", slot, 2, 0, "s", ua), ("emit", slot, 1), ("drop_sender", slot, 0), ("emit", slot, 1)]
+                    out.append(("widget_user_data", [b, "plain"], 2, script, "widgets"))
     return out
 
 
@@ -454,64 +651,93 @@ def _vary_ws(rng, ws, nweak):
     return rng.choice(_wseqs(nweak))
 
 
-def random_script(rng, nh, nweak, length):
+def random_script(rng, nh, nweak, length, nrecv=2):
     script = []
-    known = []      # (s, n, h, ws, us) of the connects issued so far
+    known = []      # (s, n, h, ws, us, r, ua) of the connects issued so far
     clist = [1]     # content of the caller's list as the script goes
     nconn = 0
     fresh = 2
     wseqs = _wseqs(nweak)
+    pool = ua_pool(rng)            # the user_arg values of this history
+    p_method = rng.choice([0.0, 0.3, 0.6])
+    p_ua = rng.choice([0.0, 0.25, 0.5])
+
+    def callback():
+        r = rng.randint(1, nrecv) if rng.random() < p_method else 0
+        return r, (rng.choice("sn") if r else "s")
+
     for _ in range(length):
-        r = rng.random()
+        x = rng.random()
         s = rng.choice([1, 1, 2])
         n = rng.choice([1, 1, 2])
-        if r < 0.36:
+        if x < 0.36:
             h = rng.randint(1, nh)
             ws = rng.choice(wseqs) if rng.random() < 0.5 else ()
             uk = rng.choice("ttffcg")
+            r, cf = callback()
+            ua = rng.choice(pool[1:]) if rng.random() < p_ua else 0
             if uk == "c":
                 us = list(clist)
             elif known and rng.random() < 0.35:     # the arguments of an earlier connection again, or nearly
                 e = rng.choice(known)
-                h, us = e[2], list(e[4])
+                h, us, r, ua = e[2], list(e[4]), e[5], e[6]
                 s, n = (e[0], e[1]) if rng.random() < 0.7 else (s, n)
                 ws = e[3] if rng.random() < 0.4 else _vary_ws(rng, e[3], nweak)
+                q = rng.random()
+                if q < 0.2:
+                    r = rng.randint(0, nrecv)       # the same function / method of another object
+                elif q < 0.4:
+                    ua = rng.choice(pool)
+                cf = rng.choice("sn") if r else "s"
             else:
                 us = [fresh] if rng.random() < 0.8 else [fresh, rng.choice([9, fresh])]
+                if rng.random() < 0.1:
+                    us = []
                 fresh += 1
-            script.append(("connect", s, n, h, list(ws), uk, us))
-            known.append((s, n, h, tuple(ws), tuple(us)))
+            script.append(("connect", s, n, h, list(ws), uk, us, 0, r, cf, ua))
+            known.append((s, n, h, tuple(ws), tuple(us), r, ua))
             nconn += 1
-        elif r < 0.40:
+        elif x < 0.40:
             script.append(("connect", s, 3, rng.randint(1, nh), [], "t", [fresh]))
-        elif r < 0.42 and nweak >= 2:   # connect while another handler's weak argument is dying
+        elif x < 0.42 and nweak >= 2:   # connect while another handler's weak argument is dying
             h = rng.randint(1, nh)
             w = rng.choice([0] + list(range(1, nweak + 1)))
             v = rng.choice([x for x in range(1, nweak + 1) if x != w])
             script.append(("connect_kill", s, n, h, [w] if w else [], v))
             nconn += 1
-        elif r < 0.52 and known:        # disconnect by arguments: a connection made, or something close to one
+        elif x < 0.44:                  # a new sender born with a callback (a widget built with on_press= / on_state_change=)
+            r, cf = callback()
+            ua = rng.choice(pool[1:]) if rng.random() < max(p_ua, 0.25) else 0
+            h = rng.randint(1, nh)
+            script.append(("construct", s, h, r, cf, ua))
+            known.append((s, 1, h, (), (), r, ua))
+            nconn += 1
+        elif x < 0.54 and known:        # disconnect by arguments: a connection made, or something close to one
             e = rng.choice(known)
-            s, n, h, ws, us = e
+            s, n, h, ws, us, r, ua = e
             q = rng.random()
-            if q < 0.5:
+            if q < 0.45:
                 pass
-            elif q < 0.6:
+            elif q < 0.53:
                 n, h = rng.choice([1, 2]), rng.randint(1, nh)
-            elif q < 0.85:
+            elif q < 0.70:
                 ws = _vary_ws(rng, ws, nweak)
-            else:
+            elif q < 0.80:
                 us = rng.choice([us + (9,), us[:-1], tuple(clist), (fresh,)])
+            elif q < 0.90:
+                r = rng.choice([x for x in range(0, nrecv + 1) if x != r])
+            else:
+                ua = rng.choice([u for u in pool if u != ua])
             uk = rng.choice("ttffg")
             if tuple(us) == tuple(clist) and rng.random() < 0.5:
                 uk = "c"
-            script.append(("disconnect", s, n, h, list(ws), uk, list(us)))
-        elif r < 0.60 and nconn:
+            script.append(("disconnect", s, n, h, list(ws), uk, list(us), r, rng.choice("sn") if r else "s", ua))
+        elif x < 0.61 and nconn:
             k = rng.randint(1, nconn + 1)
             script.append(("disconnect_by_key", s, rng.choice([1, 1, 2]), k))
-        elif r < 0.65:
+        elif x < 0.66:
             script.append(("collect", rng.randint(1, nweak)))
-        elif r < 0.70:
+        elif x < 0.71:
             c = list(clist)
             q = rng.random()
             if q < 0.35:
@@ -529,7 +755,7 @@ def random_script(rng, nh, nweak, length):
             if c != clist:
                 clist = c
                 script.append(("mutate", list(c)))
-        elif r < 0.74:
+        elif x < 0.75:
             script.append(("drop_sender", s, rng.choice([0, 1, 1])))
         else:
             script.append(("emit", s, n))
@@ -537,9 +763,10 @@ def random_script(rng, nh, nweak, length):
 
 
 MC_CFG = """CONSTANTS NS = {ns} NN = {nn} NH = {nh} NW = {nw} MaxWA = {maxwa} NU = {nu} UKinds = {{{uk}}} Mem = {mem}
+NR = {nr} CKinds = {{{ck}}} UAs = {{{uas}}} Falsy = {{{falsy}}}
 MaxOps = {maxops} MaxConn = 3 Mode = "{mode}"
 Behaviours = {{{behs}}}
-SPECIFICATION Spec
+SPECIFICATION {spec}
 INVARIANT EmitContract
 INVARIANT DeadWeakGone
 INVARIANT KeysUnique
@@ -554,9 +781,11 @@ def _q(bs):
 
 
 def _cfg(**kw):
-    d = {"ns": 1, "nn": 2, "nh": 3, "nw": 1, "maxwa": 1, "nu": 1, "uk": ["t"], "mem": False, "maxops": 3, "mode": "snapshot", "behs": BEHS}
+    d = {"ns": 1, "nn": 2, "nh": 3, "nw": 1, "maxwa": 1, "nu": 1, "uk": ["t"], "mem": False, "maxops": 3, "mode": "snapshot", "behs": BEHS,
+         "nr": 0, "ck": ["s"], "uas": [0], "falsy": [], "spec": "Spec"}
     d.update(kw)
-    d["uk"], d["behs"], d["mem"] = _q(d["uk"]), _q(d["behs"]), "TRUE" if d["mem"] else "FALSE"
+    d["uk"], d["behs"], d["mem"], d["ck"] = _q(d["uk"]), _q(d["behs"]), "TRUE" if d["mem"] else "FALSE", _q(d["ck"])
+    d["uas"], d["falsy"] = ", ".join(map(str, d["uas"])), ", ".join(map(str, d["falsy"]))
     return MC_CFG.format(**d)
 
 
@@ -567,6 +796,9 @@ MUST_FAIL = {
     "prefix": ({"nn": 1, "nh": 1, "nw": 2, "maxwa": 2, "behs": ["plain"]}, "disconnect"),
     "keyref": ({"nn": 1, "nh": 1, "mem": True, "behs": ["plain"]}, "drop_sender"),
     "strongargs": ({"nn": 1, "nh": 1, "behs": ["plain"]}, "collect"),
+    "cbident": ({"nn": 1, "nh": 1, "nr": 1, "ck": ["s", "n"], "behs": ["plain"]}, "disconnect"),
+    "samefunc": ({"nn": 1, "nh": 1, "nr": 2, "behs": ["plain"]}, "disconnect"),
+    "truthyarg": ({"nn": 1, "nh": 1, "uas": [0, 1, 2], "falsy": [1], "behs": ["plain"]}, "call"),
 }
 
 
@@ -582,6 +814,10 @@ def _mc_runs(quick):
             ("userargs_S1_N1_H2_ops4", _cfg(nn=1, nh=2, uk=["t", "c"], maxops=4, behs=["plain", "true"]), 3),
             # senders dropped with keys held / forgotten, stale keys
             ("memory_S2_N1_H2_ops4", _cfg(ns=2, nn=1, nh=2, mem=True, maxops=4, behs=["plain", "discSelf", "killWeak"]), 2),
+            # callbacks: a function and the methods of two receivers, each handed over as a kept object / fetched afresh
+            ("callbacks_S1_N1_H1_R2_ops4", _cfg(nn=1, nh=1, nr=2, ck=["s", "n"], maxops=4, behs=["plain", "true", "discLater"]), 2),
+            # the deprecated user_arg: None, two false values, a true value
+            ("userarg_S1_N1_H1_UA4_ops4", _cfg(nn=1, nh=1, uas=[0, 1, 2, 3], falsy=[1, 2], maxops=4, behs=["plain", "true", "discSelf"]), 2),
         ]
     return [
         ("dispatch_S1_H3_ops4", _cfg(maxops=4), 6),
@@ -591,6 +827,11 @@ def _mc_runs(quick):
         ("userargs_S1_N1_H1_U2_ops5", _cfg(nn=1, nh=1, nu=2, uk=["t", "f", "c"], maxops=5, behs=["plain", "discSelf"]), 6),
         ("memory_S2_N1_H2_ops5", _cfg(ns=2, nn=1, nh=2, mem=True, maxops=5, behs=["plain", "discSelf", "killWeak", "connectNew"]), 6),
         ("all_S1_N1_H2_W2_ops4", _cfg(nn=1, nh=2, nw=2, maxwa=2, mem=True, maxops=4, behs=BEHS), 6),
+        ("callbacks_S1_N1_H2_R2_ops4", _cfg(nn=1, nh=2, nr=2, ck=["s", "n"], maxops=4, behs=["plain", "discLater"]), 6),
+        ("callbacks_S1_N1_H1_R2_ops5", _cfg(nn=1, nh=1, nr=2, ck=["s", "n"], maxops=5, behs=["plain", "true", "discLater"]), 6),
+        ("cbua_S1_N1_H1_R1_UA3_ops5", _cfg(nn=1, nh=1, nr=1, ck=["s", "n"], uas=[0, 1, 2], falsy=[1], maxops=5, behs=["plain", "discLater"]), 6),
+        ("userarg_S1_N1_H1_R1_UA4_W1_mem_ops4", _cfg(nn=1, nh=1, nr=1, uas=[0, 1, 2, 3], falsy=[1, 2], mem=True, maxops=4,
+                                                     behs=["plain", "true", "discSelf", "killWeak"]), 6),
     ]
 
 
@@ -600,6 +841,7 @@ def _handle(chk, traces, res, label):
         e = tr["ev"][l - 1]
         sig = {"event": e["t"], "behaviours": sorted(set(tr["beh"]))}
         chk.reject(f"C14.{why}", sig, {"driver": label, "family": tr.get("driver"), "beh": tr["beh"], "script": tr["script"], "nweak": tr["nweak"],
+                                       "kind": tr.get("kind", "plain"),
                                        "events_up_to_rejection": tr["ev"][:l]})
 
 
@@ -610,9 +852,11 @@ def _model_checks(pool, quick):
     for name, cfg, workers in _mc_runs(quick):
         futs.append(("mc", name, pool.submit(tlc.mc, "Signals", cfg, workers=workers, timeout=3000, heap="4g" if quick else "12g")))
 
-    def wrong():
-        return [(mode, tlc.mc("Signals", _cfg(mode=mode, **kw), workers=1, timeout=600, heap="2g")) for mode, (kw, _step) in MUST_FAIL.items()]
-    futs.append(("fail", "", pool.submit(wrong)))
+    def wrong(modes):
+        return [(mode, tlc.mc("Signals", _cfg(mode=mode, **MUST_FAIL[mode][0]), workers=1, timeout=600, heap="2g")) for mode in modes]
+    modes = list(MUST_FAIL)
+    futs.append(("fail", "", pool.submit(wrong, modes[:4])))
+    futs.append(("fail", "", pool.submit(wrong, modes[4:])))
     return futs
 
 
@@ -624,7 +868,8 @@ def _emit_calls(tr):
             cur.append([])
         elif e["t"] == "call" and cur:
             aa = e["args"]
-            cur[-1].append([e["h"], [a - 1000 for a in aa if 1000 < a < 2000], [a for a in aa if 0 <= a < 1000]])
+            cur[-1].append([e["h"], [a - 1000 for a in aa if 1000 < a < 2000], [a for a in aa if 0 <= a < 1000], e["r"],
+                            next((a - 3000 for a in aa if 3000 < a < 4000), 0)])
         elif e["t"] == "emit_end" and cur:
             got.append(cur.pop())
     return got
@@ -641,7 +886,7 @@ def _census(traces):
     for t in traces:
         in_emit = 0
         edited = False
-        live = {}            # (s, n) -> list of (h, ws, us) per the events (belief, for counting only)
+        live = {}            # (s, n) -> list of (h, ws, us, r, ua) per the events (belief, for counting only)
         clist_conns = 0      # connections made with the caller's own list so far
         for e in t["ev"]:
             ty = e["t"]
@@ -654,31 +899,54 @@ def _census(traces):
                 edited = True
                 cnt("edit_during_emit." + ty)
             if ty == "connect" and not e["exc"]:
-                live.setdefault((e["s"], e["n"]), []).append((e["h"], tuple(e["ws"]), tuple(e["us"])))
+                live.setdefault((e["s"], e["n"]), []).append((e["h"], tuple(e["ws"]), tuple(e["us"]), e["r"], e["ua"]))
                 cnt("connect.user_args_as." + e["ut"])
                 cnt(f"connect.weak_args.{len(e['ws'])}")
+                cnt("connect.callback." + ("function" if not e["r"] else "method_kept" if e["cf"] == "s" else "method_fetched_afresh"))
+                cnt("connect.user_arg." + ("none" if not e["ua"] else "false_value" if e["ua"] in UA_FALSY else "true_value"))
+                if e["ua"]:
+                    cnt("connect.user_arg." + ("after_other_arguments" if e["ws"] or e["us"] else "alone"))
+                if e["via"] == "w":
+                    cnt("connect.by_widget_constructor")
+                    cnt("connect.by_widget_constructor.user_data." + ("none" if not e["ua"] else "false_value" if e["ua"] in UA_FALSY else "true_value"))
                 if e["ut"] == "c":
                     clist_conns += 1
+            elif ty == "call":
+                ua = next((a - 3000 for a in e["args"] if 3000 < a < 4000), 0)
+                if ua:
+                    cnt("call.with_user_arg." + ("false_value" if ua in UA_FALSY else "true_value"))
+                if e["r"]:
+                    cnt("call.bound_method")
+            elif ty == "emit_begin" and e["via"] == "w":
+                cnt("emit.by_widget_action")
             elif ty == "mutate":
                 if clist_conns:
                     cnt("mutate.after_connect_with_that_list")
             elif ty == "disconnect":
                 cnt("disconnect.user_args_as." + e["ut"])
                 lst = live.get((e["s"], e["n"]), [])
-                d = (e["h"], tuple(e["ws"]), tuple(e["us"]))
+                d = (e["h"], tuple(e["ws"]), tuple(e["us"]), e["r"], e["ua"])
                 if d in lst:
                     lst.remove(d)
                     cnt("disconnect.names_a_connection")
+                    if e["r"]:
+                        cnt("disconnect.names_a_connection.method_" + ("kept" if e["cf"] == "s" else "fetched_afresh"))
+                    if e["ua"]:
+                        cnt("disconnect.names_a_connection.with_user_arg")
                 else:
                     cnt("disconnect.names_nothing")
-                    for (h, ws, us) in lst:
-                        if h == d[0] and us == d[2] and ws != d[1] and (ws[:len(d[1])] == d[1] or d[1][:len(ws)] == ws):
+                    for (h, ws, us, r, ua) in lst:
+                        if (h, r, ua) == (d[0], d[3], d[4]) and us == d[2] and ws != d[1] and (ws[:len(d[1])] == d[1] or d[1][:len(ws)] == ws):
                             cnt("disconnect.names_nothing.weak_args_prefix_of_a_connection")
                             break
-                    for (h, ws, us) in lst:
-                        if h == d[0] and ws == d[1] and us != d[2]:
+                    for (h, ws, us, r, ua) in lst:
+                        if (h, r, ua) == (d[0], d[3], d[4]) and ws == d[1] and us != d[2]:
                             cnt("disconnect.names_nothing.other_user_args_of_a_connection")
                             break
+                    if any((h, ws, us, ua) == (d[0], d[1], d[2], d[4]) and r and d[3] and r != d[3] for (h, ws, us, r, ua) in lst):
+                        cnt("disconnect.names_nothing.same_method_of_another_receiver")
+                    if any((h, ws, us, r) == d[:4] and ua != d[4] for (h, ws, us, r, ua) in lst):
+                        cnt("disconnect.names_nothing.other_user_arg_of_a_connection")
             elif ty == "disconnect_by_key" and e.get("stale"):
                 cnt("disconnect_by_key.key_of_a_dropped_sender")
             elif ty == "collect":
@@ -702,16 +970,25 @@ NEED = ["edit_during_emit.disconnect_by_key", "edit_during_emit.collect", "edit_
         "mutate.after_connect_with_that_list", "disconnect.user_args_as.t", "disconnect.user_args_as.f", "disconnect.user_args_as.c",
         "disconnect.names_a_connection", "disconnect.names_nothing", "disconnect.names_nothing.weak_args_prefix_of_a_connection",
         "disconnect.names_nothing.other_user_args_of_a_connection", "disconnect_by_key.key_of_a_dropped_sender",
-        "drop_sender.with_connections.keys_kept", "drop_sender.with_connections.no_key_kept", "collect", "drop"]
+        "drop_sender.with_connections.keys_kept", "drop_sender.with_connections.no_key_kept", "collect", "drop",
+        "connect.callback.function", "connect.callback.method_kept", "connect.callback.method_fetched_afresh", "call.bound_method",
+        "disconnect.names_a_connection.method_kept", "disconnect.names_a_connection.method_fetched_afresh",
+        "disconnect.names_nothing.same_method_of_another_receiver", "disconnect.names_nothing.other_user_arg_of_a_connection",
+        "connect.user_arg.none", "connect.user_arg.false_value", "connect.user_arg.true_value", "connect.user_arg.alone",
+        "connect.user_arg.after_other_arguments", "call.with_user_arg.false_value", "call.with_user_arg.true_value",
+        "disconnect.names_a_connection.with_user_arg", "connect.by_widget_constructor.user_data.none",
+        "connect.by_widget_constructor.user_data.false_value", "connect.by_widget_constructor.user_data.true_value", "emit.by_widget_action"]
 
 
 def run(chk):
     quick = chk.tier == "quick"
     rng = chk.rng
-    pool = cf.ThreadPoolExecutor(8 if quick else 3)   # quick: everything at once (13 TLC workers in all); thorough: 3 runs at a time
+    pool = cf.ThreadPoolExecutor(12 if quick else 3)   # quick: everything at once (7 small runs); thorough: 3 runs at a time
+    warnings.simplefilter("ignore", DeprecationWarning)   # connect_signal(..., user_arg) is deprecated, and part of the property
     # ---- spec -> code: TLC behaviours give scripts and behaviour assignments (generated in the background) ----------
-    simcfg = _cfg(ns=2, nh=3, nw=2, maxwa=2, nu=2, uk=["t", "f", "c"], mem=True, maxops=9, behs=BEHS)
-    sim_fut = pool.submit(tlc.simulate, "Signals", simcfg, num=400 if quick else 6000, depth=45, seed=chk.seed, jobs=2 if quick else 6)
+    simcfg = _cfg(ns=2, nh=3, nw=2, maxwa=2, nu=2, uk=["t", "f", "c"], mem=True, maxops=9, behs=BEHS, nr=2, ck=["s", "n"], uas=[0, 1, 2, 3],
+                  falsy=[1, 2], spec="SimSpec")
+    sim_fut = pool.submit(tlc.simulate, "Signals", simcfg, num=500 if quick else 8000, depth=45, seed=chk.seed, jobs=2 if quick else 6)
     # ---- MC (in the background): Signals.tla satisfies the contract for all histories; wrong machineries are refuted ----
     mc_futs = _model_checks(pool, quick)
 
@@ -720,20 +997,21 @@ def run(chk):
     gc.collect()
     gc.freeze()  # keeps the per-trace gc.collect() in World.drop cheap
     # ---- code -> spec: seeded random scripts beyond the model's bounds ---------------------------
-    n_rand = 3000 if quick else 60000
+    n_rand = 2800 if quick else 60000
     for i in range(n_rand):
         nh = rng.randint(2, 5)
         nweak = rng.randint(1, 3)
         beh = [rng.choice(BEHS) for _ in range(nh - 1)] + ["plain"]
         if "killWeak" not in beh and rng.random() < 0.5:
             beh[0] = "killWeak"
-        tr = run_script(beh, nh, random_script(rng, nh, nweak, rng.randint(4, 16)), nweak=nweak, maxconn=6)
+        kind = "widgets" if rng.random() < 0.2 else "plain"     # senders are real widgets (Button, CheckBox) in one history out of five
+        tr = run_script(beh, nh, random_script(rng, nh, nweak, rng.randint(4, 16)), nweak=nweak, maxconn=6, kind=kind)
         tr["driver"] = "random"
         traces.append(tr)
     # ---- code -> spec: directed families (behaviour triples, duplicate connections, descriptors, caller's list, dropped senders) ----
     fam = {}
-    for name, beh, nh, script in directed_scripts():
-        tr = run_script(beh, nh, script, nweak=2, maxconn=6)
+    for name, beh, nh, script, *kind in directed_scripts(quick):
+        tr = run_script(beh, nh, script, nweak=2, maxconn=6, kind=kind[0] if kind else "plain")
         tr["driver"] = "directed." + name
         traces.append(tr)
         fam[name] = fam.get(name, 0) + 1
@@ -744,7 +1022,8 @@ def run(chk):
     behs = sim_fut.result()
     agree = used = 0
     for b in behs:
-        script, calls, beh = script_from_behaviour(b)
+        upool = [0, rng.choice(UA_ZEROS), rng.choice([2, 4, 5]), rng.choice(UA_TRUTHY)]   # the model's user_arg values: None, false, false, true
+        script, calls, beh = script_from_behaviour(b, upool)
         if script is None:
             continue
         used += 1
@@ -797,7 +1076,8 @@ def run(chk):
     for v in NEED:
         if not kinds.get(v):
             chk.vacuity.append("driver." + v)
-    for name in ("triples", "connect_kill", "duplicates", "weak_descriptors", "user_arg_kinds", "sender_dropped"):
+    for name in ("triples", "connect_kill", "duplicates", "weak_descriptors", "user_arg_kinds", "sender_dropped", "callback_kinds",
+                 "user_arg_values", "widget_user_data"):
         if not fam.get(name):
             chk.vacuity.append("driver.directed." + name)
     chk.sample(next((t for t in traces if any(e["t"] == "collect" for e in t["ev"])), traces[0]))
@@ -809,13 +1089,21 @@ def run(chk):
                         "the cycle collector runs only where the harness calls it: an object is 'dead by reference counting' when it is gone "
                         "right after the last application reference was dropped, 'dead after gc' after one gc.collect()",
                         "user arguments are integers (their identity plays no role); a sender or weak argument passed as USER argument "
-                        "is the application's own reference, not the machinery's"]
+                        "is the application's own reference, not the machinery's",
+                        "callbacks are plain functions and bound methods (of two objects of one class); a callback is what Python's == says "
+                        "it is; other callables (functools.partial, objects with __call__ and their own __eq__) are not explored",
+                        "user_arg values of one history are pairwise unequal under == (0, False and 0.0 are never mixed in one history: "
+                        "whether they name each other's connections is left open)",
+                        "a widget's own emit (Button enter, CheckBox toggle) hides the return value of emit_signal(): returns_any_true is "
+                        "not demanded there; widgets are reference cycles of their own, so a dropped widget sender must be gone after "
+                        "gc.collect() only (measured on a never-connected widget of the same kind)"]
 
 
 def replay(chk, path):
     with open(path) as f:
         rp = json.load(f)["replay"]
-    tr = run_script(rp["beh"], len(rp["beh"]), [tuple(o) for o in rp["script"]], nweak=rp.get("nweak", 1), maxconn=6)
+    warnings.simplefilter("ignore", DeprecationWarning)
+    tr = run_script(rp["beh"], len(rp["beh"]), [tuple(o) for o in rp["script"]], nweak=rp.get("nweak", 1), maxconn=6, kind=rp.get("kind", "plain"))
     res = tlc.validate("SignalsTrace", [tr])
     chk.add_tv("replay", res)
     _handle(chk, [tr], res, "replay")
